@@ -43,7 +43,7 @@ def classify_wait(cfg, stim, pi, k, bank_index, t0, t1, backend="fast"):
     rec = []
 
     def probe(dut, sim, t):
-        if t0 + 2 <= t <= t1:      # the arbiter needs a cycle to see the new request; the signature is about the rest of the wait
+        if t0 + 2 + (t1 - t0) // 4 <= t <= t1:      # the bank may still be handed from one port to the holder early in the wait: the signature is about the last three quarters
             arb = _crossbar_arbiters(dut)[bank_index]
             bank = getattr(dut.interface, "bank%d" % bank_index)
             rec.append((sim.get(arb.grant), sim.get(bank.valid), sim.get(bank.lock)))
